@@ -479,7 +479,7 @@ func codecPairsRule(P *Program, R *Report) {
 						okU = desc(callArgs(c)[1]) == "new:revocation."+typ.inter
 					}
 					if isCallTo(c, recv+".uncompress") {
-						okUn = desc(callArgs(c)[1]) == "new:revocation."+typ.inter
+						okUn = desc(callArgs(c)[1]) == "new:revocation."+typ.inter || typeStr(callArgs(c)[1].Type()) == "*revocation."+typ.inter
 					}
 				}
 			})
